@@ -95,7 +95,9 @@ def examine_network(ctx, case, rng):
             ctx.violation(f'C06:open_circuit_impedance-raises-{type(e).__name__}', f'Z({a!r},{b!r}) raised {type(e).__name__}: {str(e)[:80]}; exact {w}', rep)
             continue
         scale = max(abs(w), 1e-12)
-        if abs(got - w) > tol * max(scale, 1.0 if abs(w) == 0 else 0):
+        if abs(w) == 0:
+            scale = 1.0          # exact zero reached through the solver: absolute tolerance (also for the checks below)
+        if abs(got - w) > tol * scale:
             has_ivs = any(x['ctor'] == 'voltage_source' and x['args'][1] == [0.0, 0.0] for x in case['branches'])
             key = 'C06:wrong-port-impedance' + (':ideal-voltage-source-in-network' if has_ivs else '')
             small = netrun.shrink(case, lambda c, a=a, b=b: wrong_port(c, a, b))
@@ -156,7 +158,12 @@ def examine_network(ctx, case, rng):
         except Exception as e:  # noqa: BLE001
             ctx.violation(f'C06:element_impedance-raises-{type(e).__name__}', f'element {b["id"]!r}: {str(e)[:80]}; exact {complex(want)}', rep)
             continue
-        if abs(got - complex(want)) > 1e-7 * max(abs(complex(want)), 1e-9):
+        zr = zeroed(rest)
+        econd = netrun.mna_cond({'zero': b['n2'], 'branches': zr['branches'] + [{'id': 'p', 'n1': b['n2'], 'n2': b['n1'], 'ctor': 'current_source', 'args': [[1.0, 0.0], [0.0, 0.0]]}]})
+        if econd > 1e8:
+            ctx.count('ill-conditioned(skipped)')
+            continue
+        if abs(got - complex(want)) > max(1e-7, econd * 1e-13) * max(abs(complex(want)), 1e-9 if abs(complex(want)) > 0 else 1.0):
             ctx.violation('C06:wrong-element-impedance', f'seen by {b["id"]!r}: {got}, exact {complex(want)}', rep)
 
 
